@@ -361,6 +361,21 @@ func valueChild(out *Out, seed uint64, start, count, cfg int, tier string) {
 				os.Unsetenv("COMP_WORDBREAKS")
 			}
 		}
+		if sh == "bash" && wbp != "" && strings.Contains(flags, "I") && r.Chance(1, 2) {
+			// a candidate that matches the typed word only case-insensitively in the part bash keeps in front of the wordbreak
+			sw := strings.Map(func(c rune) rune {
+				switch {
+				case c >= 'a' && c <= 'z':
+					return c - 32
+				case c >= 'A' && c <= 'Z':
+					return c + 32
+				}
+				return c
+			}, wbp)
+			if sw != wbp {
+				vals = append(vals, common.RawValue{Value: sw + strings.TrimPrefix(word, wbp) + "x", Display: sw + "x"})
+			}
+		}
 		wbPresent, wbVal := "0", ""
 		os.Unsetenv("COMP_WORDBREAKS")
 		if (sh == "bash" || sh == "tcsh") && r.Chance(1, 3) {
